@@ -19,7 +19,7 @@ def one_event_iff_active(emit_names, event_cls):
         import z3
         from pyvc.engine import truth
         n = len([e for e in tr if e[0] == "call" and _nm(e[1]) in emit_names])
-        made = len([e for e in tr if e[0] == "call" and _nm(e[1]) == event_cls])
+        made = len([e for e in tr if e[0] in ("call", "new") and _nm(e[1]) == event_cls])
         if n > 1 or made != n:
             return False
         active = ex.eval_clause("bool(dispatcher.active)", s)
@@ -27,19 +27,63 @@ def one_event_iff_active(emit_names, event_cls):
     return {"name": f"exactly one {event_cls} is delivered when the dispatcher is active, none otherwise", "check": check}
 
 
+def _t(v):
+    return getattr(v, "t", None)
+
+
+def run_event_fields(event_cls):
+    """The one event handed to the dispatcher is the freshly built `event_cls` object and it identifies this run: RunStart
+    carries the run id and span id that the helper RETURNS (the caller passes them to every node event and to RunEnd) and the
+    caller's parent span and graph name; RunEnd carries the ids and parent it was GIVEN, and its status says "failed"
+    exactly when an error was given."""
+    def check(tr, outcome, raised, env, ex, s):
+        import z3
+        from pyvc.engine import truth
+        news = [e for e in tr if e[0] == "new" and e[1] == event_cls]
+        emits = [e[2] for e in tr if e[0] == "call" and _nm(e[1]) in ("emit", "emit_async")]
+        if not news and not emits:
+            return True
+        if len(news) != 1 or len(emits) != 1 or len(news[0]) < 4:
+            return False
+        f, obj = news[0][3]["fields"], news[0][3]["obj"]
+        ev = _t(emits[0].get("event"))
+        if ev is None or not ev.eq(obj.t):
+            return False
+        need = {"run_id", "span_id", "parent_span_id", "graph_name"} | ({"is_map", "map_size"} if event_cls == "RunStartEvent" else {"status"})
+        if not need <= set(f):
+            return False
+        gname = ex.eval_pure("graph.name", s)
+        conds = [_t(f["parent_span_id"]) == _t(env["parent_span_id"]), _t(f["graph_name"]) == gname]
+        if event_cls == "RunStartEvent":
+            if outcome != "return":
+                return True
+            res = env["result"]
+            conds += [_t(f["run_id"]) == _t(res.items[0]), _t(f["span_id"]) == _t(res.items[1]),
+                      truth(f["is_map"], s) == truth(env["is_map"], s), _t(f["map_size"]) == _t(env["map_size"])]
+        else:
+            conds += [_t(f["run_id"]) == _t(env["run_id"]), _t(f["span_id"]) == _t(env["span_id"])]
+            failed = ex.eval_pure("'failed'", s)
+            completed = ex.eval_pure("'completed'", s)
+            err = truth(env["error"], s)
+            st = _t(f["status"])
+            conds.append(z3.If(err, st == failed, st == completed))
+        return z3.And(*conds)
+    return {"name": f"the delivered {event_cls} carries this run's ids, parent span, graph name" + (" and the outcome" if event_cls == "RunEndEvent" else ""), "check": check}
+
+
 START = dict(
     props=["C12", "C13"],
     params={"dispatcher": DISP, "graph": OBJ("Graph"), "parent_span_id": OPT(STR), "is_map": BOOL, "map_size": OPT(INT)},
     returns=FIXTUP(STR, STR),
     requires=["not dispatcher._strict"],
-    trace=[one_event_iff_active({"emit", "emit_async"}, "RunStartEvent")],
+    trace=[one_event_iff_active({"emit", "emit_async"}, "RunStartEvent"), run_event_fields("RunStartEvent")],
 )
 END_ = dict(
     props=["C12", "C13"],
     params={"dispatcher": DISP, "run_id": STR, "span_id": STR, "graph": OBJ("Graph"), "start_time": ANY, "parent_span_id": OPT(STR), "error": ANY},
     returns=NONE_T,
     requires=["not dispatcher._strict"],
-    trace=[one_event_iff_active({"emit", "emit_async"}, "RunEndEvent")],
+    trace=[one_event_iff_active({"emit", "emit_async"}, "RunEndEvent"), run_event_fields("RunEndEvent")],
 )
 
 CONTRACTS = {
